@@ -274,3 +274,64 @@ def running_event(state_name, data, sm_type="STANDARD", eng=None, branch=None, e
         eng.execution_history[EX_ARN] = [{"timestamp": CLOCK.now, "type": "ExecutionStarted", "id": 1, "previousEventId": 0,
                                           "executionStartedEventDetails": {"input": "{}", "roleArn": "r"}}]
     return {"data": data, "context": ctx}
+
+
+def run_fifo(eng, log, event, task=None, max_steps=40):
+    """Canonical schedule for a one-engine run over the recording dispatchers: events are
+    handled in publication order, a Task's reply is delivered as soon as it was requested,
+    timers fire immediately in arming order.  `task(resource, params)` -> reply dict.
+    Returns the list of (subject, cw_event) broadcasts."""
+    import json as _json
+    ed, tdp = eng.event_dispatcher, eng.task_dispatcher
+    consumed = 0
+    calls_done = 0
+    n = 0
+    eng.notify(event, "ev0")
+    steps = 0
+    while steps < max_steps:
+        steps += 1
+        progressed = False
+        # timers (non-zero delays are fired right away: virtual time)
+        while ed.timers:
+            tid = sorted(ed.timers)[0]
+            cb, delay = ed.timers.pop(tid)
+            CLOCK.advance_to(CLOCK.now + max(delay, 0) / 1000.0)
+            cb()
+            progressed = True
+        while calls_done < len(tdp.calls):
+            resource, params, cb, timeout, is_task, ev_id, red = tdp.calls[calls_done]
+            calls_done += 1
+            cb(task(resource, params) if task else {"ok": 1})
+            progressed = True
+        pubs = [l for l in log if l[0] == "publish"]
+        if consumed < len(pubs):
+            ev = FastJson.loads(FastJson.dumps(pubs[consumed][1]))
+            consumed += 1
+            n += 1
+            eng.notify(ev, "ev%d" % n)
+            progressed = True
+        if not progressed:
+            break
+    return [(l[1], l[2]) for l in log if l[0] == "broadcast"]
+
+
+def same(a, b):
+    """Structural JSON equality, key by key (CrossHair's dict proxies can compare
+    insertion-order-sensitively; bool is not int)."""
+    if isinstance(a, bool) or isinstance(b, bool):
+        return isinstance(a, bool) and isinstance(b, bool) and a == b
+    if isinstance(a, dict):
+        if not isinstance(b, dict) or len(a) != len(b):
+            return False
+        for k in a:
+            if k not in b or not same(a[k], b[k]):
+                return False
+        return True
+    if isinstance(a, (list, tuple)):
+        if not isinstance(b, (list, tuple)) or len(a) != len(b):
+            return False
+        for x, y in zip(a, b):
+            if not same(x, y):
+                return False
+        return True
+    return type(a) == type(b) and a == b or (isinstance(a, (int, float)) and isinstance(b, (int, float)) and a == b)
